@@ -36,6 +36,18 @@ CLAIMED.update({
    note=VOLNOTE),
 })
 
+TOPONOTE = "Trusted: the reference recomputed from the registered state (last report of each connected server), the RaftStub (single leader), the in-memory heartbeat stream standing in for gRPC transport. Volume servers are modelled message sources; the master handler and topology are the real code."
+CLAIMED.update({
+ "C11": dict(engine="cluster", design="§6 C11",
+   technique=TECH + "modelled volume servers driving the real master SendHeartbeat handler over in-memory streams with duplicated, stale and reordered heartbeats, disconnects and a reconnect overtaking the unregister; invariant checked after every delivered message",
+   text="Seeded heartbeat histories (full/incremental, lagging the servers' actual state, read-only flips, sizes around the limit, disconnect/reconnect) from 2-5 modelled volume servers against the real master handler and topology. After every message: every volume offered for writes has all registered replicas writable, the right replica count (or more with replication-as-minimum) and — after the master's own sweep had four pulses of fake time — a size below the limit; layout locations and Topology.Lookup equal the registered servers.",
+   note=TOPONOTE),
+ "C12": dict(engine="cluster", design="§6 C12",
+   technique=TECH + "same message-level fault injection as C11 plus EC-shard full/incremental heartbeats and max-volume changes; recount invariant checked after every delivered message",
+   text="After every delivered heartbeat the volume, remote-volume, EC-shard and max-volume counters of every disk, server, rack, data center and the cluster equal the recount from the registered state beneath, and the per-server listings equal what is registered. Three genuine accounting defects found this way were repaired (see known_findings.json 'fixed').",
+   note=TOPONOTE),
+})
+
 PLANNED = {}
 
 NA = {
